@@ -376,12 +376,16 @@ func (h *vpMarkHandler) ServeNostr(ctx context.Context, send chan<- ServerMsg, r
 	return nil
 }
 
+var vpMarkCalls int // constructor stubs called since the harness started
+
 func vpMarkMiddleware(name string, v int64) func(Handler) Handler {
+	vpMarkCalls++
 	return func(h Handler) Handler { return &vpMarkHandler{name, v, h} }
 }
 
-func vpH_C17_nip11() {
+func vpInstallNIP11Stubs() {
 	const P = "github.com/high-moctane/mocrelay."
+	vpMarkCalls = 0
 	vpStub(P+"NewMaxSubscriptionsMiddleware", func(v int) MaxSubscriptionsMiddleware {
 		return MaxSubscriptionsMiddleware(vpMarkMiddleware("max_subscriptions", int64(v)))
 	})
@@ -403,6 +407,10 @@ func vpH_C17_nip11() {
 	vpStub(P+"NewCreatedAtUpperLimitMiddleware", func(v int64) CreatedAtUpperLimitMiddleware {
 		return CreatedAtUpperLimitMiddleware(vpMarkMiddleware("created_at_upper_limit", v))
 	})
+}
+
+func vpH_C17_nip11() {
+	vpInstallNIP11Stubs()
 	if !vpSymbolic() {
 		vpReach("end")
 		return
@@ -439,6 +447,11 @@ func vpH_C17_nip11() {
 			vpAssert(mh.value != 0, "C17.nip11-only-set-limits")
 			h = mh.inner
 		}
+		if h != base && vpMarkCalls == 0 {
+			// the chain is not composed from the seven constructors (a fused implementation?):
+			// this structural harness cannot judge it
+			vpUnsupported("BuildMiddlewareFromNIP11 does not call the individual middleware constructors: the structural harness cannot judge the chain")
+		}
 		vpAssert(h == base, "C17.nip11-wraps-the-handler")
 		// a REQ rejected by max_filters / max_limit must not take a subscription slot: the
 		// quota sits inside (after) the middlewares that can reject a REQ
@@ -466,14 +479,25 @@ func vpH_C17_nip11() {
 
 // No document, or a document without limitation block: the chain is the identity.
 func vpH_C17_nip11_identity() {
+	vpInstallNIP11Stubs()
+	if !vpSymbolic() {
+		vpReach("end")
+		return
+	}
 	base := NewDefaultHandler()
+	var h Handler
 	switch vpChoice("doc", 3) {
 	case 0:
-		vpAssert(BuildMiddlewareFromNIP11(nil)(base) == base, "C17.nip11-nil-document-is-identity")
+		h = BuildMiddlewareFromNIP11(nil)(base)
 	case 1:
-		vpAssert(BuildMiddlewareFromNIP11(&NIP11{Name: "x"})(base) == base, "C17.nip11-no-limitation-is-identity")
+		h = BuildMiddlewareFromNIP11(&NIP11{Name: "x"})(base)
 	case 2:
-		vpAssert(BuildMiddlewareFromNIP11(&NIP11{Limitation: &NIP11Limitation{}})(base) == base, "C17.nip11-empty-limitation-is-identity")
+		h = BuildMiddlewareFromNIP11(&NIP11{Limitation: &NIP11Limitation{}})(base)
+	}
+	// no limit configured: none of the limit middlewares may be in the chain
+	vpAssert(vpMarkCalls == 0, "C17.nip11-no-limit-no-middleware")
+	if h != base && vpMarkCalls == 0 {
+		vpUnsupported("with no limit configured the chain is neither the handler itself nor built from the constructors: the structural harness cannot judge it")
 	}
 	vpReach("end")
 }
